@@ -422,14 +422,14 @@ func (m Mesh) BoundingBox(atr string) geometry.AABB {
 	return geometry.NewAABBFromPoints(m.v3Data[atr]...)
 }
 
-func (m Mesh) scanTrisPrimitives(start, size int, f func(i int, p Primitive)) {
-	for i := start; i < size; i++ {
+func (m Mesh) scanTrisPrimitives(start, end int, f func(i int, p Primitive)) {
+	for i := start; i < end; i++ {
 		f(i, m.Tri(i))
 	}
 }
 
-func (m Mesh) scanPointPrimitives(start, size int, f func(i int, p Primitive)) {
-	for i := start; i < size; i++ {
+func (m Mesh) scanPointPrimitives(start, end int, f func(i int, p Primitive)) {
+	for i := start; i < end; i++ {
 		f(i, &Point{
 			mesh:  &m,
 			index: i,
@@ -437,8 +437,8 @@ func (m Mesh) scanPointPrimitives(start, size int, f func(i int, p Primitive)) {
 	}
 }
 
-func (m Mesh) scanLinePrimitives(start, size int, f func(i int, p Primitive)) {
-	for i := start; i < size; i++ {
+func (m Mesh) scanLinePrimitives(start, end int, f func(i int, p Primitive)) {
+	for i := start; i < end; i++ {
 		f(i, &Line{
 			mesh:          &m,
 			startingIndex: i,
@@ -493,15 +493,17 @@ func (m Mesh) ScanPrimitivesParallelWithPoolSize(size int, f func(i int, p Primi
 
 		go func(start, size int) {
 			defer wg.Done()
+			// the scan helpers take (start, end), not (start, size)
+			end := start + size
 			switch m.topology {
 			case TriangleTopology:
-				m.scanTrisPrimitives(start, size, f)
+				m.scanTrisPrimitives(start, end, f)
 
 			case PointTopology:
-				m.scanPointPrimitives(start, size, f)
+				m.scanPointPrimitives(start, end, f)
 
 			case LineStripTopology:
-				m.scanLinePrimitives(start, size, f)
+				m.scanLinePrimitives(start, end, f)
 
 			default:
 				panic(fmt.Errorf("unimplemented topology: %s", m.topology.String()))
